@@ -1,5 +1,6 @@
 import PromModel.Suites.RwSendSuite
 import PromProofs.QueueShardsOrder
+import PromProofs.Relabel
 /-
   C40 — Remote write delivers every sample in order despite resharding and retries.
 
@@ -309,6 +310,159 @@ theorem strict_order_without_failures (mss cc n : Nat) (sched : List Act) (s : S
 /-- The hypothesis is needed: a request stored and then answered with a recoverable error is re-sent. -/
 theorem dup_after_reached_retry_witness : ∃ s, run (init 2 1 1) [.storeSeries 1 true, .append 1 0 false, .timer 0,
     .sendRecov 0 true, .sendOk 0] = some s ∧ s.received = [⟨1, 0⟩, ⟨1, 0⟩] := ⟨_, rfl, rfl⟩
+
+/-! ### labels: external labels are merged first (a series label wins), then write relabeling
+
+  `WriteRelabel.storeLabels ext cfgs ls` is what `StoreSeries` computes for a series with labels `ls`
+  (`none` = the ref goes to `droppedSeries`); the suite feeds `.storeSeries ref (storeLabels …).isSome`
+  to the transition system and the judge demands the label set `storeLabels` yields on every sample. -/
+
+section Labels
+open Prom.Relabel Prom.WriteRelabel
+
+theorem mergeOne_get_ne (b : Builder) (el : Label) {n : String} (h : n ≠ el.name) :
+    (mergeOne b el).get n = b.get n := by
+  unfold mergeOne
+  split
+  · exact get_set_ne b _ h
+  · rfl
+
+theorem mergeExt_get_notin (ext : List Label) (b : Builder) (n : String) (h : ∀ el ∈ ext, n ≠ el.name) :
+    (mergeExt b ext).get n = b.get n := by
+  induction ext generalizing b with
+  | nil => rfl
+  | cons el rest ih =>
+    simp only [mergeExt, List.foldl_cons]
+    have := ih (mergeOne b el) (fun e he => h e (List.mem_cons_of_mem _ he))
+    simp only [mergeExt] at this
+    rw [this, mergeOne_get_ne b el (h el (List.mem_cons_self ..))]
+
+/-- **A series label is never overridden by an external label**: whatever the external labels are, a name
+    the series carries (non-empty) keeps the series' value in the builder the relabel rules see. -/
+theorem external_label_series_wins (ext : List Label) (b : Builder) (n : String) (h : b.get n ≠ "") :
+    (mergeExt b ext).get n = b.get n := by
+  induction ext generalizing b with
+  | nil => rfl
+  | cons el rest ih =>
+    simp only [mergeExt, List.foldl_cons]
+    have hstep : (mergeOne b el).get n = b.get n := by
+      by_cases hn : n = el.name
+      · subst hn
+        have : (b.get el.name == "") = false := by simpa using h
+        simp [mergeOne, this]
+      · exact mergeOne_get_ne b el hn
+    have := ih (mergeOne b el) (by rw [hstep]; exact h)
+    simp only [mergeExt] at this
+    rw [this, hstep]
+
+/-- **An external label the series does not carry is visible to the relabel rules** with the configured
+    value (external label names are distinct, as in a `labels.Labels`). -/
+theorem external_label_added (ext : List Label) (hnd : NodupNames ext) (b : Builder) (n v : String)
+    (hmem : (⟨n, v⟩ : Label) ∈ ext) (h : b.get n = "") : (mergeExt b ext).get n = v := by
+  induction ext generalizing b with
+  | nil => cases hmem
+  | cons el rest ih =>
+    simp only [mergeExt, List.foldl_cons]
+    have hnd' := List.pairwise_cons.mp hnd
+    rcases List.mem_cons.mp hmem with he | hr
+    · subst he
+      have h1 : mergeOne b ⟨n, v⟩ = b.set n v := by simp [mergeOne, h]
+      have h2 := mergeExt_get_notin rest (b.set n v) n (fun e he => hnd'.1 e he)
+      simp only [mergeExt] at h2
+      rw [h1, h2, get_set_eq]
+    · have hne : n ≠ el.name := fun e => hnd'.1 _ hr (by simp [e])
+      have := ih hnd'.2 (mergeOne b el) hr (by rw [mergeOne_get_ne b el hne]; exact h)
+      simpa only [mergeExt] using this
+
+example : NodupNames [⟨"cluster", "eu"⟩, ⟨"replica", "a"⟩] := by
+  simp [NodupNames]
+
+/-- The value a rule reads for a source label: the series' own value if it has one, else the external one. -/
+theorem merged_get (ext ls : List Label) (hnd : NodupNames ext) (n : String) :
+    (merged ext ls).get n =
+      if (Builder.new ls).get n ≠ "" then (Builder.new ls).get n
+      else match ext.find? (fun el => el.name == n) with
+        | some el => el.value
+        | none => "" := by
+  unfold merged
+  split
+  · rename_i h; exact external_label_series_wins ext _ n h
+  · rename_i h
+    have h : (Builder.new ls).get n = "" := by simpa using h
+    cases hf : ext.find? (fun el => el.name == n) with
+    | some el =>
+      have hm := List.mem_of_find?_eq_some hf
+      have hn : el.name = n := by simpa using List.find?_some hf
+      have : (⟨n, el.value⟩ : Label) ∈ ext := by rw [← hn]; exact hm
+      simpa using external_label_added ext hnd _ n el.value this h
+    | none =>
+      rw [mergeExt_get_notin ext _ n, h]
+      intro e he hne
+      have := List.find?_eq_none.mp hf e he
+      simp [hne] at this
+
+/-- **A drop rule sees the external labels**: if the joined source values of the first rule — read from the
+    series labels MERGED with the external labels — match its regex, the series is dropped
+    (and by `relabel_dropped_never_sent` nothing of it is sent). -/
+theorem drop_rule_sees_external_labels (ext ls : List Label) (c : Config) (cs : List Config)
+    (ha : c.action = .drop) (hm : (c.regex.run (joinVals c (merged ext ls))).isSome = true) :
+    storeLabels ext (c :: cs) ls = none := by
+  have hne : c.regex.run (joinVals c (merged ext ls)) ≠ none := by intro e; simp [e] at hm
+  simp [storeLabels, process, relabel, ha, hne]
+
+/-- …and a keep rule keyed on an external label drops what does not match. -/
+theorem keep_rule_sees_external_labels (ext ls : List Label) (c : Config) (cs : List Config)
+    (ha : c.action = .keep) (hm : (c.regex.run (joinVals c (merged ext ls))).isSome = false) :
+    storeLabels ext (c :: cs) ls = none := by
+  have he : c.regex.run (joinVals c (merged ext ls)) = none := by simpa using hm
+  simp [storeLabels, process, relabel, ha, he]
+
+/-- Rules that neither drop nor touch anything leave exactly series labels + external labels. -/
+theorem no_rules_labels (ext ls : List Label) : storeLabels ext [] ls = some (merged ext ls).labels := by
+  simp [storeLabels, process]
+
+/-- What is sent is a canonical label set: sorted by name, no empty values (hence no duplicate names). -/
+theorem stored_labels_canonical (ext ls : List Label) (cfgs : List Config) (hs : Sorted ls) (l : List Label)
+    (h : storeLabels ext cfgs ls = some l) : Sorted l ∧ ∀ x ∈ l, x.value ≠ "" := by
+  have hinv : Relabel.Inv (merged ext ls) :=
+    inv_foldl mergeOne (fun b x hb => by unfold mergeOne; split; exact inv_set hb _ _; exact hb) ext (inv_new hs)
+  have hc := labels_canonical (inv_process cfgs hinv)
+  simp only [storeLabels] at h
+  split at h
+  · cases h; exact hc
+  · cases h
+
+/-- The order matters (the mistake of relabeling first and merging the external labels into what is kept):
+    with external label `cluster="eu"` and the rule `drop cluster=~"eu"`, a series without its own `cluster` is
+    dropped by `StoreSeries`, while relabel-then-merge would keep it and send it with `cluster="eu"`. -/
+theorem relabel_order_matters_witness :
+    let rx : Regex := { run := fun s => if s = "eu" then some [s] else none, names := [""], isDefault := false }
+    let c : Config := { action := .drop, sourceLabels := ["cluster"], separator := ";", regex := rx, modulus := 0,
+                        targetLabel := "", replacement := "$1", utf8 := true }
+    storeLabels [⟨"cluster", "eu"⟩] [c] [⟨"job", "api"⟩] = none ∧
+    storeLabelsRelabelFirst [⟨"cluster", "eu"⟩] [c] [⟨"job", "api"⟩] ≠ none := by
+  intro rx c
+  constructor
+  · apply drop_rule_sees_external_labels _ _ c [] rfl
+    have hg : (merged [⟨"cluster", "eu"⟩] [⟨"job", "api"⟩]).get "cluster" = "eu" := by
+      rw [merged_get _ _ (by simp [NodupNames])]
+      simp [Builder.new, Builder.get, baseGet]
+    simp [joinVals, c, rx, hg]
+  · simp [storeLabelsRelabelFirst, process, relabel, joinVals, c, rx, Builder.new, Builder.get, baseGet]
+
+end Labels
+
+/-- **Dropped series send nothing** (link to the transition system): in any schedule whose `StoreSeries`
+    actions carry the keep decision of `WriteRelabel.storeLabels` (what the suite's driver emits), a ref whose labels
+    are dropped by relabeling of (series labels + external labels) is never received by the endpoint. -/
+theorem relabel_dropped_never_sent (ext : List Relabel.Label) (cfgs : List Relabel.Config) (lbl : Nat → List Relabel.Label)
+    (mss cc n : Nat) (sched : List Act) (s : St) (h : run (init mss cc n) sched = some s)
+    (hsched : ∀ r k, (.storeSeries r k) ∈ sched → k = (WriteRelabel.storeLabels ext cfgs (lbl r)).isSome)
+    (r : Nat) (hdrop : WriteRelabel.storeLabels ext cfgs (lbl r) = none) : ∀ x, x ∈ s.received → x.ref ≠ r := by
+  apply never_kept_never_sent mss cc n sched s r h
+  intro hin
+  have := hsched r true hin
+  simp [hdrop] at this
 
 /-! ### the accounting defect of the real code, reproduced by the model (finding C40-F1) -/
 
